@@ -63,6 +63,8 @@ pub const FAULT_KINDS: [ErrorKind; 6] = [
 thread_local! {
     /// The public call in progress on this thread (set by `sorter_common::call`).
     pub static STAGE: std::cell::RefCell<String> = const { std::cell::RefCell::new(String::new()) };
+    /// Number of component calls issued since the current public call started.
+    pub static CALLS_IN_STAGE: std::cell::Cell<u32> = const { std::cell::Cell::new(0) };
 }
 
 pub fn set_stage(s: &str) {
@@ -71,6 +73,7 @@ pub fn set_stage(s: &str) {
         st.clear();
         st.push_str(s);
     });
+    CALLS_IN_STAGE.with(|c| c.set(0));
 }
 
 pub fn current_stage() -> String {
@@ -86,7 +89,9 @@ pub struct Plan {
     /// (component, operation, public call in progress) of the injected failure
     pub fired: Mutex<Option<(String, String, String)>>,
     pub per_op: Mutex<BTreeMap<String, u64>>,
-    pub trace: Mutex<Vec<(String, &'static str, String)>>,
+    /// (component class, operation, public call in progress, ordinal of this component call
+    /// within that public call)
+    pub trace: Mutex<Vec<(String, &'static str, String, u32)>>,
     pub keep_trace: bool,
 }
 
@@ -119,9 +124,13 @@ impl Plan {
     /// Counts one component call; `true` when this is the call that must fail.
     pub fn tick(&self, comp: &str, op: &'static str) -> bool {
         let k = self.calls.fetch_add(1, Ordering::SeqCst) + 1;
+        let ordinal = CALLS_IN_STAGE.with(|c| {
+            c.set(c.get() + 1);
+            c.get()
+        });
         if self.keep_trace {
             *self.per_op.lock().unwrap().entry(format!("{}.{}", comp_class(comp), op)).or_insert(0) += 1;
-            self.trace.lock().unwrap().push((comp_class(comp).to_string(), op, current_stage()));
+            self.trace.lock().unwrap().push((comp_class(comp).to_string(), op, current_stage(), ordinal));
         }
         if self.fail_at != 0 && k == self.fail_at {
             *self.fired.lock().unwrap() = Some((comp.to_string(), op.to_string(), current_stage()));
